@@ -920,6 +920,8 @@ class CallMixin:
                     return '%s:%s' % (mi.imports[name][1], mi.imports[name][2])
         if name == 'struct.error':
             return 'struct:error'
+        if name == 'CancelledError':
+            return 'asyncio:CancelledError'
         raise Unsupported('cannot resolve exception class %s' % name)
 
 
